@@ -152,6 +152,15 @@ macro_rules! narrow_impl {
                         ts.rec(ok, || format!("Matrix2<{}> m = {:?} (determinant {:e}): invert() = {:?}", $tag, m, m.determinant(), m.invert()));
                     }
                 }
+                // exactly singular 2x2 matrices with entries whose products are not representable (equal columns, proportional
+                // rows): both products of the determinant are the same number, so it is exactly zero and there is no inverse
+                let tg = Tally::new(name("c02.singular_2x2_exact"));
+                for &(a, b) in [(0.1 as S, 0.3 as S), (0.7, 1.0 / 3.0), (1.1, -2.3), (3.3e-3, 7.7e5), (-0.9, 0.1)].iter() {
+                    for m in [Matrix2::new(a, b, a, b), Matrix2::new(a, b, 2.0 * a, 2.0 * b), Matrix2::new(a, a, b, b), Matrix2::new(-a, b, 4.0 * a, -4.0 * b)] {
+                        tg.rec(m.determinant() == 0.0 && m.invert().is_none(), || format!("Matrix2<{}> m = {:?}: determinant = {:e}, invert = {:?}", $tag, m, m.determinant(), m.invert()));
+                    }
+                }
+                tg.print();
                 t.print();
                 tw.print();
                 ts.print();
@@ -199,6 +208,27 @@ macro_rules! narrow_impl {
                         t.rec(ok, || format!("Quaternion<{}> q = {:?} (|q|^2 = {:e}): invert(q) = {:?}, q*invert(q) = {:?}", $tag, q, q.magnitude2(), iv, a));
                     }
                 }
+                // q * v for non-unit q with a huge scalar part and a tiny (non-zero) vector part: the formula of the property,
+                // v + 2 s (qv x v) + 2 qv x (qv x v), evaluated in f64
+                let tq = Tally::new(name("c04.mul_v_formula_any_magnitude"));
+                for &(sc, tv) in [(1.0e10 as S, 1.0e-8 as S), (1.0e6, 1.0e-7), (1.0e3, 5.0e-8), (1.0e12, 1.0e-9), (2.0, 1.0e-9), (1.0e-3, 1.0e10)].iter() {
+                    for ax in 0..3 {
+                        let mut qv = [0.0 as S; 3];
+                        qv[ax] = tv;
+                        qv[(ax + 1) % 3] = -0.5 * tv;
+                        let q = Quaternion::new(sc, qv[0], qv[1], qv[2]);
+                        let v = Vector3::new(0.3 as S, 1.0, -2.0);
+                        let (q6, v6) = (Vector3::new(qv[0] as f64, qv[1] as f64, qv[2] as f64), Vector3::new(v.x as f64, v.y as f64, v.z as f64));
+                        let want = v6 + q6.cross(v6) * (2.0 * sc as f64) + q6.cross(q6.cross(v6)) * 2.0;
+                        let got = q * v;
+                        let g6 = Vector3::new(got.x as f64, got.y as f64, got.z as f64);
+                        let tolv = 64.0 * (EPS as f64) * (1.0 + want.magnitude() + (sc as f64) * (tv as f64) * 4.0);
+                        let r2 = q.rotate_vector(v);
+                        tq.rec((g6 - want).magnitude() <= tolv && (r2 - got).magnitude() as f64 <= tolv,
+                            || format!("Quaternion<{}> q = {:?}, v = {:?}: q * v = {:?}, v + 2s(qv x v) + 2 qv x (qv x v) = {:?}", $tag, q, v, got, want));
+                    }
+                }
+                tq.print();
                 t.print();
                 tp.print();
             }
@@ -593,6 +623,24 @@ macro_rules! narrow_impl {
                     }
                 }
                 ts.print();
+                // lerp(a, b, t) = a + (b - a) t wherever that expression is finite, also next to the top of the range and for
+                // amounts outside [0, 1]
+                let tl = Tally::new(name("c14.lerp_large_values"));
+                let top = S::MAX / 8.0;
+                for &t_ in [10.0 as S, -5.0, 0.5, 1.0, 0.0, 2.0].iter() {
+                    for &k in [1.0 as S, 0.3, -0.7].iter() {
+                        let a = Vector3::new(top * k, -top * k, top * 0.3);
+                        let b = a + Vector3::new(top * 1.0e-3, 0.0, -top * 2.0e-3) ;
+                        let want = a + (b - a) * t_;
+                        let got = a.lerp(b, t_);
+                        let same = a.lerp(a, t_);
+                        let qa = Quaternion::new(top * k, 1.0, -top * 0.1, 0.0);
+                        let qsame = qa.lerp(qa, t_);
+                        let ok = vmax(got - want) <= 16.0 * EPS * top && vmax(same - a) <= 16.0 * EPS * top && (qsame.s - qa.s).abs() <= 16.0 * EPS * top && vmax(qsame.v - qa.v) <= 16.0 * EPS * top;
+                        tl.rec(ok, || format!("Vector3<{}> a = {:?}, b = {:?}, t = {}: lerp = {:?}, a + (b - a) t = {:?}; lerp(a, a, t) = {:?}", $tag, a, b, t_, got, want, same));
+                    }
+                }
+                tl.print();
             }
 
             // ---------------------------------------------------------------- C11
@@ -727,6 +775,28 @@ macro_rules! narrow_impl {
                         || format!("Quaternion<{}>::from_arc(src = {:?}, dst = {:?}) (lengths {:e}, {:e}, angle {:e} rad) = {:?} (|q| = {:e}): maps src/|src| to {:?}, want {:?}",
                             $tag, a * la, d * lb, la, lb, th, q, q.magnitude(), q * a, d));
                 }
+                // from_arc next to (not at) a half turn: still a UNIT quaternion taking src/|src| onto dst/|dst|
+                let th_ = Tally::new(name("c15.from_arc_near_half_turn"));
+                let dls: &[f64] = if EPS < 1.0e-10 { &[1.0e-2, 1.0e-3, 1.0e-4, 1.0e-5, 1.0e-6] } else { &[1.0e-1, 3.0e-2, 1.0e-2, 3.0e-3] };
+                for i in 0..n.min(600) {
+                    let a = unit3(&mut s);
+                    let o = {
+                        let w = unit3(&mut s);
+                        let p = w - a * a.dot(w);
+                        if p.magnitude() < 0.2 { continue; }
+                        p.normalize()
+                    };
+                    let del = dls[(i as usize) % dls.len()];
+                    let ang = std::f64::consts::PI - del;
+                    let b = (a * (ang.cos() as S) + o * (ang.sin() as S)).normalize();
+                    let (la, lb) = ([1.0 as S, 3.0, 0.25][(i % 3) as usize], [1.0 as S, 0.5, 7.0][((i / 3) % 3) as usize]);
+                    let q = Quaternion::from_arc(a * la, b * lb, None);
+                    let toln = 256.0 * EPS;
+                    let tolb = 4000.0 * EPS + 64.0 * EPS / (del as S);
+                    th_.rec((q.magnitude() - 1.0).abs() <= toln && vmax(q * a - b) <= tolb,
+                        || format!("Quaternion<{}>::from_arc(src = {:?}, dst = {:?}) (half turn - {:e}) = {:?}: |q| - 1 = {:e}, |q a - b| = {:e}", $tag, a * la, b * lb, del, q, q.magnitude() - 1.0, vmax(q * a - b)));
+                }
+                th_.print();
                 tl.print();
                 t.print();
                 ta.print();
